@@ -11,7 +11,8 @@ like requests on a fresh one.
 Timeout part (`Rivaas.Timeout`): one well-formed response — at most one timeout body, never together
 with handler output or a second error body, status 408 whenever the timeout body is there —,
 `ServeHTTP` does not return while the handler goroutine still runs, a panic of the timed handler
-has reached recovery by the time `ServeHTTP` returns, nothing escapes.
+has reached recovery by the time `ServeHTTP` returns (observed: recovery handled a panic) and is
+answered with recovery's 500 if nothing had been written, nothing escapes.
 -/
 namespace Rivaas.Chain
 
@@ -53,6 +54,8 @@ structure TObs where
   releasedEarly : Bool
   /-- the timed handler panicked -/
   hPanicked : Bool
+  /-- the recovery middleware handled a panic (its logger / response handler was called) -/
+  recovered : Bool
   deriving Repr, DecidableEq, Inhabited
 
 def timeoutOK (o : TObs) : Bool :=
@@ -63,34 +66,12 @@ def timeoutOK (o : TObs) : Bool :=
   o.body.count Chunk.t408 ≤ 1 &&
   !(hasT && (hasH || hasR)) &&
   (!hasT || o.status == some Chunk.t408) &&
-  (!o.hPanicked || hasR)
+  (!o.hPanicked || o.recovered) &&
+  (!o.hPanicked || hasH || hasT || o.status == some Chunk.rec500)
 
 /-- the model state as an observation (meaningful once `R` has returned) -/
 def obsOf (s : St) : TObs :=
   { status := s.status, body := s.body, escaped := false, releasedEarly := s.releasedEarly,
-    hPanicked := s.panicChan.isSome }
-
-/-! ### known-finding classes, stated on the input (program and schedule) -/
-
-def deadlinePossible (prog : List HAct) (sched : List Tok) : Bool :=
-  prog.contains .fireDl || sched.contains .dl
-
-def cancelPossible (prog : List HAct) (sched : List Tok) : Bool :=
-  prog.contains .firePc || sched.contains .pc
-
-def hasWrite (prog : List HAct) : Bool := prog.contains .write
-
-def hasPanic (prog : List HAct) : Bool := prog.any fun a => match a with | .panic _ => true | _ => false
-
-/-- K10b: the parent context can be cancelled while the handler runs — the middleware returns
-    without waiting for the handler goroutine -/
-def dK10b (prog : List HAct) (sched : List Tok) : Bool := cancelPossible prog sched
-
-/-- K10a: the deadline can pass and the handler writes (before or after it) — the timeout body and
-    the handler's output share one response -/
-def dK10a (prog : List HAct) (sched : List Tok) : Bool := deadlinePossible prog sched && hasWrite prog
-
-/-- K10d: the deadline can pass and the handler panics — recovery's 500 body follows the 408 body -/
-def dK10d (prog : List HAct) (sched : List Tok) : Bool := deadlinePossible prog sched && hasPanic prog
+    hPanicked := s.panicChan.isSome, recovered := s.recovered.isSome }
 
 end Rivaas.Timeout
